@@ -422,6 +422,13 @@ def fam_seek(bits, tier):
     for a in ("min", "max"):
         yield Case("seek", "input x %s x seek x pos" % operand_src(a, bits), [("x", b"\1\2")], word="seek", k=a)
         yield Case("seek", "input x 1 x skip %s x skip x pos" % operand_src(a, bits), [("x", b"\1\2")], word="skip", k=a)
+    # reads at positions that are not multiples of the item size (packed records)
+    for rw in ("h", "!h", "i", "!I", "q", "!d", "f"):
+        for off in (1, 3):
+            yield Case("seek", "input x %d x skip x %s-> stack x pos 2 x #%s-> stack x pos" % (off, rw, rw),
+                       [("x", bytes(range(1, 30)))], word="misaligned", k=off)
+    yield Case("seek", "input x output o int32 1 x skip 3 x #!i-> o o len x pos", [("x", bytes(range(1, 30)))],
+               word="misaligned", k=1)
     yield Case("seek", "input x input y x b-> stack y h-> stack x pos y pos 0 x seek y end",
                [("x", b"\1\2"), ("y", b"\3\4")], word="two-inputs")
     yield Case("seek", "input x input y x b-> stack", [("y", b"\3\4"), ("x", b"\1\2")], word="two-inputs")
